@@ -242,8 +242,10 @@ def r16d(R):
     R.check(tok, 'comment: whole token == "#" ends the line', len(cut) == 1,
             'the comment cut is no longer made on a whole `#` token')
     # the quotes are stripped and \" unescaped for strings
+    scope = [tok] + [t for c in A.calls_in(tok) for t in A.callees(tok, c)
+                     if t.cls is lex]
     strip = any(isinstance(n, ast.Subscript) and norm(n.slice) == '1:-1'
-                for n in walk_own(tok.node))
+                for g in scope for n in walk_own(g.node))
     R.check(tok, 'string tokens lose their quotes', strip,
             'string tokens keep their quotes')
 
@@ -324,18 +326,26 @@ def r16f(R):
         elif isinstance(e, (ast.Call, ast.Subscript, ast.Attribute)):
             for ch in ast.iter_child_nodes(e):
                 visit(ch)
-    cfg = A.cfg(tok)
-    order = []
-    for n in cfg.nodes:
-        if n.kind == 'stmt' and isinstance(n.ast, ast.Assign):
-            ops[:] = []
-            visit(n.ast.value)
-            if ops:
-                order.append((n, list(ops)))
     flat = []
-    # statements in CFG order along the string branch
-    for n, o in sorted(order, key=lambda x: x[0].id):
-        flat += o
+    scope = [tok] + [t for c in A.calls_in(tok) for t in A.callees(tok, c)
+                     if t.cls is lex]
+    for g in scope:
+        cfg = A.cfg(g)
+        order = []
+        for n in cfg.nodes:
+            e = None
+            if n.kind == 'stmt' and isinstance(n.ast, ast.Assign):
+                e = n.ast.value
+            elif n.kind == 'return' and n.ret_expr is not None:
+                e = n.ret_expr
+            if e is not None:
+                ops[:] = []
+                visit(e)
+                if ops:
+                    order.append((n, list(ops)))
+        # statements in CFG order along the string branch
+        for n, o in sorted(order, key=lambda x: x[0].id):
+            flat += o
     R.check(tok, 'string token: %s' % ' then '.join(flat),
             flat == ['strip', 'unescape'],
             'the enclosing quotes must be removed before \\" is turned into ": '
